@@ -1,173 +1,45 @@
 package props
 
 import (
-	"net/netip"
-
-	"harness/env"
-	"harness/refnet"
+	"harness/tmpl"
 )
 
-// Frame templates shared by C01, C02, C08 and C16. Everything is built with the independent refnet builders.
+// Thin aliases of the shared template package.
 
-// Tmpl is a named full length frame.
-type Tmpl struct {
-	Name  string
-	Frame []byte
-}
+type Tmpl = tmpl.Tmpl
 
 var (
-	ip4a    = netip.MustParseAddr("192.168.0.10")
-	ip4b    = netip.MustParseAddr("192.168.0.11")
-	ip4off  = netip.MustParseAddr("8.8.8.8")
-	ip4host = netip.MustParseAddr("192.168.0.129")
-	ip4rtr  = netip.MustParseAddr("192.168.0.1")
-	ip4zero = netip.MustParseAddr("0.0.0.0")
-	ip4bc   = netip.MustParseAddr("255.255.255.255")
-	lla1    = netip.MustParseAddr("fe80::10")
-	lla2    = netip.MustParseAddr("fe80::11")
-	gua1    = netip.MustParseAddr("2001:db8::10")
-	mc6     = netip.MustParseAddr("ff02::1")
-	bcast   = []byte{0xff, 0xff, 0xff, 0xff, 0xff, 0xff}
+	ip4a    = tmpl.IP4a
+	ip4b    = tmpl.IP4b
+	ip4off  = tmpl.IP4off
+	ip4host = tmpl.IP4host
+	ip4rtr  = tmpl.IP4rtr
+	ip4zero = tmpl.IP4zero
+	ip4bc   = tmpl.IP4bc
+	lla1    = tmpl.LLA1
+	lla2    = tmpl.LLA2
+	gua1    = tmpl.GUA1
+	mc6     = tmpl.MC6
+	bcast   = tmpl.Bcast
+
+	portAlphabet = tmpl.PortAlphabet
+	etherTypes   = tmpl.EtherTypes
 )
-
-// UDP port alphabet: every port the classification table mentions plus two neutral ones.
-var portAlphabet = []uint16{443, 67, 68, 546, 547, 53, 5353, 5355, 123, 1900, 3702, 137, 138, 32412, 32414, 10001, 80, 40000, 0}
-
-var etherTypes = []uint16{0, 1500, 1535, 1536, 0x0800, 0x0806, 0x86dd, 0x8100, 0x88a8, 0x8808, 0x8899, 0x88cc, 0x890d, 0x893a, 0x6970, 0x880a, 0xffff}
 
 type namedMAC struct {
 	n string
 	m []byte
 }
 
-// srcMACs is ordered: template order must be identical in every worker process.
 func srcMACs() []namedMAC {
-	return []namedMAC{{"client", env.MAC1}, {"own", env.HostMAC}, {"router", env.RouterMAC}, {"mcast", env.McastMAC}}
+	var out []namedMAC
+	for _, x := range tmpl.SrcMACs() {
+		out = append(out, namedMAC{x.N, x.M})
+	}
+	return out
 }
 
-func pat(n int, seed byte) []byte {
-	b := make([]byte, n)
-	for i := range b {
-		b[i] = byte(i)*7 + seed
-	}
-	return b
-}
-
-// dhcpDiscover builds a well formed DHCP DISCOVER payload.
-func dhcpDiscover(chaddr []byte, xid uint32) []byte {
-	return refnet.DHCP4Msg{Op: 1, XID: xid, CHAddr: chaddr, Options: [][2][]byte{{{53}, {1}}, {{55}, {1, 3, 6, 15}}, {{12}, []byte("host1")}}}.Bytes()
-}
-
-// frameTemplates returns the structural frame templates of the Parse explorations.
-func frameTemplates(full bool) []Tmpl {
-	var t []Tmpl
-	add := func(name string, f []byte) { t = append(t, Tmpl{name, f}) }
-	macs := srcMACs()
-	// (1) every EtherType x source MAC class with an opaque payload
-	for _, et := range etherTypes {
-		for _, nm := range macs {
-			mn, m := nm.n, nm.m
-			add("eth-"+hex4(et)+"-"+mn, refnet.Eth(bcast, m, et, pat(46, byte(et))))
-		}
-	}
-	// VLAN tagged
-	add("eth-8021q-ip4", refnet.EthVLAN(bcast, env.MAC1, 1, 0x0800, refnet.IP4(ip4a, ip4b, 17, refnet.UDP(53, 53, pat(20, 1)), refnet.IP4Opt{})))
-	add("eth-8021ad-ip4", refnet.EthVLAN(bcast, env.MAC1, 2, 0x0800, refnet.IP4(ip4a, ip4b, 17, refnet.UDP(53, 53, pat(20, 1)), refnet.IP4Opt{})))
-	// (2) IPv4: IHL x TotalLen around the real length, protocols
-	udp := refnet.UDP(40000, 40001, pat(12, 3))
-	for _, ihl := range []int{0, 4, 5, 6, 15} {
-		physical := 20
-		if ihl > 5 {
-			physical = ihl * 4
-		}
-		L := physical + len(udp)
-		for _, tot := range []int{0, 4*ihl - 1, 4 * ihl, L - 1, L, L + 1, 65535} {
-			if tot < 0 {
-				continue
-			}
-			o := refnet.IP4Opt{IHL: ihl, TotalLen: tot}
-			if ihl > 5 {
-				o.Options = make([]byte, ihl*4-20)
-			}
-			add("ip4-ihl"+itoa(ihl)+"-tot"+itoa(tot), refnet.Eth(bcast, env.MAC1, 0x0800, refnet.IP4(ip4a, ip4b, 17, udp, o)))
-		}
-	}
-	for _, proto := range []byte{0, 1, 2, 6, 17, 58, 255} {
-		for _, nm := range macs {
-			mn, m := nm.n, nm.m
-			add("ip4-proto"+itoa(int(proto))+"-"+mn, refnet.Eth(bcast, m, 0x0800, refnet.IP4(ip4a, ip4b, proto, pat(28, proto), refnet.IP4Opt{})))
-		}
-	}
-	for _, src := range []netip.Addr{ip4a, ip4off, ip4zero, ip4host, ip4rtr, ip4bc} {
-		add("ip4-src-"+src.String(), refnet.Eth(bcast, env.MAC1, 0x0800, refnet.IP4(src, ip4b, 17, udp, refnet.IP4Opt{})))
-	}
-	// (3) IPv6: payload length x next header
-	for _, nh := range []byte{0, 6, 17, 58, 59, 1} {
-		body := pat(24, nh)
-		L := len(body)
-		for _, pl := range []int{0, L - 1, L, L + 1, 65535} {
-			add("ip6-nh"+itoa(int(nh))+"-pl"+itoa(pl), refnet.Eth(bcast, env.MAC1, 0x86dd, refnet.IP6(lla1, mc6, nh, 255, body, pl)))
-		}
-	}
-	for _, src := range []netip.Addr{lla1, gua1, mc6, netip.IPv6Unspecified()} {
-		for _, nm := range macs {
-			mn, m := nm.n, nm.m
-			add("ip6-src-"+src.String()+"-"+mn, refnet.Eth(bcast, m, 0x86dd, refnet.IP6(src, mc6, 17, 64, udp, -1)))
-		}
-	}
-	// (4) UDP ports (destination over the whole alphabet, a few sources), both families
-	for _, dp := range portAlphabet {
-		for _, sp := range []uint16{40000, 53, 443, 5353} {
-			if !full && sp != 40000 && dp != 53 && dp != 67 {
-				continue
-			}
-			u := refnet.UDP(sp, dp, pat(16, byte(dp)))
-			add("udp4-"+itoa(int(sp))+"-"+itoa(int(dp)), refnet.Eth(bcast, env.MAC1, 0x0800, refnet.IP4(ip4a, ip4b, 17, u, refnet.IP4Opt{})))
-			add("udp6-"+itoa(int(sp))+"-"+itoa(int(dp)), refnet.Eth(bcast, env.MAC1, 0x86dd, refnet.IP6(lla1, lla2, 17, 64, u, -1)))
-		}
-	}
-	// (5) TCP data offsets
-	for _, doff := range []int{0, 4, 5, 6, 15} {
-		seg := refnet.TCP(40000, 80, 1, 2, doff, 0x18, pat(10, 9))
-		add("tcp4-doff"+itoa(doff), refnet.Eth(bcast, env.MAC1, 0x0800, refnet.IP4(ip4a, ip4b, 6, seg, refnet.IP4Opt{})))
-		add("tcp6-doff"+itoa(doff), refnet.Eth(bcast, env.MAC1, 0x86dd, refnet.IP6(lla1, lla2, 6, 64, seg, -1)))
-	}
-	// (6) ICMP types
-	for _, typ := range []byte{0, 3, 5, 8, 11, 128, 129, 133, 134, 135, 136, 137, 143} {
-		add("icmp4-"+itoa(int(typ)), refnet.Eth(env.HostMAC, env.MAC1, 0x0800, refnet.IP4(ip4a, ip4host, 1, refnet.ICMP4(typ, 0, [4]byte{0, 7, 0, 1}, pat(16, typ)), refnet.IP4Opt{})))
-		add("icmp6-"+itoa(int(typ)), refnet.Eth(env.HostMAC, env.MAC1, 0x86dd, refnet.IP6(lla1, env.HostLLA, 58, 255, refnet.ICMP6(lla1, env.HostLLA, typ, 0, pat(28, typ)), -1)))
-	}
-	// (7) ARP: hlen / plen / operations / sender classes
-	for _, hl := range []byte{0, 6, 255} {
-		for _, pl := range []byte{0, 4} {
-			a := refnet.ARP(1, env.MAC1, ip4a, make([]byte, 6), ip4b)
-			a[4], a[5] = hl, pl
-			add("arp-hl"+itoa(int(hl))+"-pl"+itoa(int(pl)), refnet.Eth(bcast, env.MAC1, 0x0806, a))
-		}
-	}
-	for _, spa := range []netip.Addr{ip4a, ip4off, ip4zero, ip4host} {
-		for _, nm := range macs {
-			mn, m := nm.n, nm.m
-			add("arp-spa-"+spa.String()+"-"+mn, refnet.Eth(bcast, m, 0x0806, refnet.ARP(1, m, spa, make([]byte, 6), ip4b)))
-		}
-	}
-	add("arp-reply", refnet.Eth(env.MAC2, env.MAC1, 0x0806, refnet.ARP(2, env.MAC1, ip4a, env.MAC2, ip4b)))
-	add("arp-sha-differs", refnet.Eth(bcast, env.MAC1, 0x0806, refnet.ARP(1, env.MAC2, ip4a, make([]byte, 6), ip4b)))
-	// (8) application payloads
-	add("dhcp-discover", refnet.Eth(bcast, env.MAC1, 0x0800, refnet.IP4(ip4zero, ip4bc, 17, refnet.UDP(68, 67, dhcpDiscover(env.MAC1, 0x01020304)), refnet.IP4Opt{})))
-	dnsq := append(refnet.DNSHeader(7, 0x0100, 1, 0, 0, 0), refnet.DNSQuestion(refnet.DNSName("www.example.com"), 1, 1)...)
-	add("dns-query", refnet.Eth(env.RouterMAC, env.MAC1, 0x0800, refnet.IP4(ip4a, ip4rtr, 17, refnet.UDP(40000, 53, dnsq), refnet.IP4Opt{})))
-	// long frames
-	for _, n := range []int{60, 64, 1514, 1518, 1522, 1523, 2000, 9000} {
-		if n-42 < 0 {
-			continue
-		}
-		add("long-"+itoa(n), refnet.Eth(bcast, env.MAC1, 0x0800, refnet.IP4(ip4a, ip4b, 17, refnet.UDP(40000, 40001, pat(n-42, 5)), refnet.IP4Opt{})))
-	}
-	return t
-}
-
-func hex4(v uint16) string {
-	const d = "0123456789abcdef"
-	return string([]byte{d[v>>12&15], d[v>>8&15], d[v>>4&15], d[v&15]})
-}
+func pat(n int, seed byte) []byte                   { return tmpl.Pat(n, seed) }
+func dhcpDiscover(chaddr []byte, xid uint32) []byte { return tmpl.DHCPDiscover(chaddr, xid) }
+func frameTemplates(full bool) []Tmpl               { return tmpl.FrameTemplates(full) }
+func hex4(v uint16) string                          { return tmpl.Hex4(v) }
